@@ -104,6 +104,7 @@ type CallObs struct {
 	RepoViewSame bool     `json:"repoViewSame"`
 	HandedSame   bool     `json:"handedSame"`
 	OptsSame     bool     `json:"optsSame"`
+	ProducedSame bool     `json:"producedSame"`
 	SigCounts    []int    `json:"sigCounts"`
 }
 
@@ -451,7 +452,9 @@ func (r *mockRepo) PushSignature(ctx context.Context, mediaType string, blob []b
 	}
 	b := ocispec.Descriptor{MediaType: mediaType, Digest: digest.FromBytes(blob), Size: int64(len(blob))}
 	r.nPushed++
-	m := ocispec.Descriptor{MediaType: ocispec.MediaTypeImageManifest, Digest: digest.FromString(fmt.Sprint("manifest", r.nPushed, b.Digest)), Size: 100}
+	// like oras.PackManifest, the manifest descriptor carries the very annotation map it was given
+	m := ocispec.Descriptor{MediaType: ocispec.MediaTypeImageManifest, Digest: digest.FromString(fmt.Sprint("manifest", r.nPushed, b.Digest)), Size: 100,
+		Annotations: annotations}
 	r.pushed[subject.Digest] = append(r.pushed[subject.Digest], m)
 	if r.cfg.Push == "indexDeleteFails" {
 		return b, m, &remote.ReferrersError{Op: "DeleteReferrersIndex", Subject: subject, Err: errors.New("cannot delete the old referrers index")}
@@ -477,6 +480,7 @@ type recRepo struct {
 	resolves []string
 	handed   []handedRec
 	pushes   []pushRec
+	produced []producedRec
 }
 
 func (r *recRepo) Resolve(ctx context.Context, reference string) (ocispec.Descriptor, error) {
@@ -498,7 +502,27 @@ func (r *recRepo) FetchSignatureBlob(ctx context.Context, desc ocispec.Descripto
 
 func (r *recRepo) PushSignature(ctx context.Context, mediaType string, blob []byte, subject ocispec.Descriptor, annotations map[string]string) (ocispec.Descriptor, ocispec.Descriptor, error) {
 	r.pushes = append(r.pushes, pushRec{cloneDesc(subject), cloneMap(annotations), mediaType, append([]byte(nil), blob...)})
-	return r.inner.PushSignature(ctx, mediaType, blob, subject, annotations)
+	b, m, err := r.inner.PushSignature(ctx, mediaType, blob, subject, annotations)
+	// what this push produced and handed back: the annotation map object that was attached, the descriptors returned
+	r.produced = append(r.produced, producedRec{ann: annotations, annSnap: cloneMap(annotations), annNil: annotations == nil,
+		manifest: m, manifestSnap: cloneDesc(m), blob: b, blobSnap: cloneDesc(b), stored: m.Digest != ""})
+	return b, m, err
+}
+
+// producedRec: objects a push produced; every later operation must leave them alone.
+type producedRec struct {
+	ann          map[string]string
+	annSnap      map[string]string
+	annNil       bool
+	manifest     ocispec.Descriptor
+	manifestSnap ocispec.Descriptor
+	blob         ocispec.Descriptor
+	blobSnap     ocispec.Descriptor
+	stored       bool
+	index        []string // index.json entries of the signature manifest right after the push (OCI layouts)
+	indexKnown   bool
+	listed       []KV // the annotations the repository lists for this signature right after the push
+	listedKnown  bool
 }
 
 // ---- worlds ---------------------------------------------------------------------------------
@@ -767,6 +791,23 @@ func (w *world) sigCounts() []int {
 			n = countUnreliable
 		}
 		out[k] = n
+	}
+	return out
+}
+
+// listedAnnotations: what the repository lists for every signature of every artifact (digest -> annotations).
+func (w *world) listedAnnotations() map[digest.Digest][]KV {
+	out := map[digest.Digest][]KV{}
+	if w.quiet && w.mock == nil {
+		return out
+	}
+	for k := range w.plains {
+		w.inner.ListSignatures(context.Background(), w.plains[k], func(ds []ocispec.Descriptor) error {
+			for _, d := range ds {
+				out[d.Digest] = pairs(d.Annotations)
+			}
+			return nil
+		})
 	}
 	return out
 }
@@ -1097,6 +1138,7 @@ func (g *gen) runSpec(s spec) (Input, Obs) {
 		last = j
 	}
 	obs := Obs{Calls: []CallObs{}}
+	var returnedSigs []handedRec // descriptors SignOCI returned to the caller, who keeps them
 	nSign := 0
 	for j, c := range s.steps {
 		switch c.Op {
@@ -1156,7 +1198,11 @@ func (g *gen) runSpec(s spec) (Input, Obs) {
 				// the deprecated wrapper must behave the same
 				artDesc, err = notation.Sign(context.Background(), sgArg, repoArg, opts)
 			} else {
-				artDesc, _, err = notation.SignOCI(context.Background(), sgArg, repoArg, opts)
+				var sigDesc ocispec.Descriptor
+				artDesc, sigDesc, err = notation.SignOCI(context.Background(), sgArg, repoArg, opts)
+				if err == nil {
+					returnedSigs = append(returnedSigs, handedRec{sigDesc, cloneDesc(sigDesc)}, handedRec{artDesc, cloneDesc(artDesc)})
+				}
 			}
 		}()
 		nSign++
@@ -1227,6 +1273,42 @@ func (g *gen) runSpec(s spec) (Input, Obs) {
 		for _, h := range rec.handed {
 			if !sameDesc(h.desc, h.snap) {
 				o.HandedSame = false
+			}
+		}
+		// everything EARLIER pushes produced or handed back is still what it was: the annotation map objects, the
+		// descriptors returned, the layout's index.json entries of the earlier signature manifests, what the
+		// repository lists for them; then the products of this call are recorded for the calls to come
+		o.ProducedSame = true
+		listedNow := w.listedAnnotations()
+		for k := range rec.produced {
+			p := &rec.produced[k]
+			if !sameMap(p.ann, p.annSnap) || (p.ann == nil) != p.annNil || !sameDesc(p.manifest, p.manifestSnap) || !sameDesc(p.blob, p.blobSnap) {
+				o.ProducedSame = false
+			}
+			if !p.stored {
+				continue
+			}
+			if w.dir != "" {
+				now := indexEntriesOf(w.dir, p.manifestSnap.Digest)
+				if p.indexKnown && !reflect.DeepEqual(now, p.index) {
+					o.ProducedSame = false
+				}
+				if !p.indexKnown {
+					p.index, p.indexKnown = now, true
+				}
+			}
+			if l, ok := listedNow[p.manifestSnap.Digest]; ok || p.listedKnown {
+				if p.listedKnown && (!ok || !reflect.DeepEqual(l, p.listed)) {
+					o.ProducedSame = false
+				}
+				if !p.listedKnown && ok {
+					p.listed, p.listedKnown = l, true
+				}
+			}
+		}
+		for _, d := range returnedSigs {
+			if !sameDesc(d.desc, d.snap) {
+				o.ProducedSame = false
 			}
 		}
 		o.OptsSame = true
